@@ -178,8 +178,33 @@ def handlePush : List String → String
     | _, _, _ => "bad-op"
   | _ => "bad-op"
 
+/-- Two real peers of one process connected back to back. What each side receives is what the
+other side's automaton writes: the inbound peer gets the outbound peer's version (its nonce is in
+the process's cache: `self_nonce_registered_before_visible`), and, only when self connections are
+allowed, the rest of a regular exchange. -/
+def handleSelfConn : List String → String
+  | [allow, oursO, oursI, _sched] =>
+    match parseBool? allow, oursO.toNat?, oursI.toNat? with
+    | some allow, some oO, some oI =>
+      if oO = 0 ∨ oI = 0 ∨ oO ≥ 2^31 ∨ oI ≥ 2^31 then "bad-op" else
+      let neg := min oO oI
+      let rest : List Tok :=
+        if allow ∧ MinAcceptableProtocolVersion ≤ neg then
+          (if AddrV2Version ≤ neg then [.msg .sendaddrv2] else []) ++ [.msg .verack]
+        else []
+      let inToks : List Tok := .version oO true :: (if allow then rest else [])
+      let outToks : List Tok := if allow then .version oI true :: rest else []
+      let (si, ei) := run ⟨true, oI, allow, false, false⟩ inToks
+      let (so, eo) := run ⟨false, oO, allow, false, false⟩ outToks
+      let cbs (es : List Ev) := joinOrDash (es.filterMap (fun e => match e with | .cb k => some (kindName k) | _ => none))
+      let b (x : Bool) : String := if x then "1" else "0"
+      s!"in: cb={cbs ei} pver={si.pver} vk={b si.versionKnown} va={b si.verAck} | out: cb={cbs eo} pver={so.pver} vk={b so.versionKnown} va={b so.verAck}"
+    | _, _, _ => "bad-op"
+  | _ => "bad-op"
+
 def handle : List String → String
   | "trace" :: rest => handleTrace rest
+  | "selfconn" :: rest => handleSelfConn rest
   | "push" :: rest => handlePush rest
   | "hs2" :: rest => handleHs2 rest
   | ["inv", n, k, d, b, maxBatch, limit] =>
